@@ -620,9 +620,8 @@ impl<'a> Compiler<'a> {
                 self.current_index.pop_subindex();
             }
             CardBody::Repeat(rep) => {
-                self.current_index.push_subindex(0);
+                // compile_subexpr numbers the single card as child 0 itself
                 self.compile_subexpr(slice::from_ref(&rep.n))?;
-                self.current_index.pop_subindex();
                 let i = &rep.i;
                 let repeat = &rep.body;
                 self.scope_begin();
